@@ -157,6 +157,9 @@ func (mq *MessageQueue) Startup() {
 func (mq *MessageQueue) Shutdown() {
 	mq.doneOnce.Do(func() {
 		close(mq.done)
+		if verifhook.Enabled {
+			verifhook.Observe("messagequeue.shutdown", string(mq.p), mq)
+		}
 	})
 }
 
